@@ -422,11 +422,21 @@ pub fn make_module() -> KMap {
                 let l = l.clone();
                 let f = f.clone();
 
-                for value in l.data_mut().iter_mut() {
-                    *value = match ctx.vm.call_function(f.clone(), value.clone()) {
-                        Ok(result) => result,
-                        Err(error) => return Err(error),
+                // The list is only borrowed while an element is being read or written,
+                // the function is free to access the list while it's being called.
+                let mut index = 0;
+                loop {
+                    let Some(value) = l.data().get(index).cloned() else {
+                        break;
+                    };
+
+                    let result = ctx.vm.call_function(f.clone(), value)?;
+
+                    if let Some(value) = l.data_mut().get_mut(index) {
+                        *value = result;
                     }
+
+                    index += 1;
                 }
 
                 Ok(KValue::List(l))
